@@ -62,6 +62,10 @@ pub enum ModelEvaluatorError {
   EmptyFunctionBody,
   #[error("empty value expression")]
   EmptyValueExpression,
+  #[error("decision table has no output clauses")]
+  DecisionTableWithoutOutputClauses,
+  #[error("number of entries in a rule is less than the number of clauses in decision table")]
+  RuleEntriesDoNotMatchClauses,
   #[error("read lock failed with reason '{0}'")]
   ReadLockFailed(String),
   #[error("write lock failed with reason '{0}'")]
@@ -124,6 +128,14 @@ pub fn err_empty_function_body() -> DmntkError {
 
 pub fn err_empty_value_expression() -> DmntkError {
   ModelEvaluatorError::EmptyValueExpression.into()
+}
+
+pub fn err_decision_table_without_output_clauses() -> DmntkError {
+  ModelEvaluatorError::DecisionTableWithoutOutputClauses.into()
+}
+
+pub fn err_rule_entries_do_not_match_clauses() -> DmntkError {
+  ModelEvaluatorError::RuleEntriesDoNotMatchClauses.into()
 }
 
 pub fn err_read_lock_failed(reason: impl ToString) -> DmntkError {
